@@ -84,6 +84,8 @@ class E:
                 self._h = ("fn", self.args[0], self.args[1].key())
             elif self.op == "fn2":
                 self._h = ("fn2", self.args[0], self.args[1].key(), self.args[2].key())
+            elif self.op == "cmp":
+                self._h = ("cmp", self.args[0], self.args[1].key(), self.args[2].key())
             else:
                 self._h = (self.op,) + tuple(a.key() for a in self.args)
         return self._h
@@ -203,6 +205,8 @@ class E:
             return what == "eq"
         if what in ("eq", "ne") and GENERIC_DISTINCT and self.op == "var" and o.op == "var":
             return what == "ne"
+        if SYMBOLIC_COND:
+            return E("cmp", what, self, o)
         raise TraceError(f"data-dependent comparison ({what}) on symbolic value {self}")
 
     def __lt__(self, o): return self._cmp(o, "lt")
@@ -284,6 +288,14 @@ def to_text(e: E) -> str:
         return f"{e.args[0]}({to_text(e.args[1])})"
     if e.op == "fn2":
         return f"{e.args[0]}({to_text(e.args[1])}, {to_text(e.args[2])})"
+    if e.op == "cmp":
+        return f"({to_text(e.args[1])} {e.args[0]} {to_text(e.args[2])})"
+    if e.op in ("band", "bor"):
+        return f"({to_text(e.args[0])} {e.op} {to_text(e.args[1])})"
+    if e.op == "bnot":
+        return f"(not {to_text(e.args[0])})"
+    if e.op == "ite":
+        return f"(if {to_text(e.args[0])} then {to_text(e.args[1])} else {to_text(e.args[2])})"
     if e.op == "neg":
         return f"(-{to_text(e.args[0])})"
     s = {"add": "+", "sub": "-", "mul": "*", "div": "/"}[e.op]
@@ -306,6 +318,8 @@ def to_coq(e: E, fnmap: Optional[Dict[Tuple[str, str], str]] = None) -> str:
         return e.args[0]
     if e.op == "fn2":
         raise TraceError("two-argument transcendental node cannot be emitted as a field term")
+    if e.op in ("cmp", "band", "bor", "bnot", "ite"):
+        raise TraceError("conditional node cannot be emitted as a field term (the unit must take it apart)")
     if e.op == "fn":
         k = (e.args[0], to_text(e.args[1]))
         if fnmap is None or k not in fnmap:
@@ -834,6 +848,20 @@ class Tensor:
     __gt__ = gt
     __ge__ = ge
 
+    def __and__(self, o):
+        f = lambda a, b: (E("band", a, b) if (isinstance(a, E) or isinstance(b, E)) else (bool(a) and bool(b)))
+        r = _bi(f)(self.a, o.a if isinstance(o, Tensor) else o)
+        return Tensor(_obj(r), dtype=bool_)
+
+    def __or__(self, o):
+        f = lambda a, b: (E("bor", a, b) if (isinstance(a, E) or isinstance(b, E)) else (bool(a) or bool(b)))
+        r = _bi(f)(self.a, o.a if isinstance(o, Tensor) else o)
+        return Tensor(_obj(r), dtype=bool_)
+
+    def __invert__(self):
+        f = lambda a: (E("bnot", a) if isinstance(a, E) else (not bool(a)))
+        return Tensor(_obj(_un(f)(self.a)), dtype=bool_)
+
     def any(self):
         return Tensor(np.array(builtins_any(bool(v) for v in self.a.reshape(-1)), dtype=object), dtype=bool_)
 
@@ -1045,10 +1073,15 @@ def where(cond, a, b):
     shp = np.broadcast_shapes(c.shape, av.shape, bv.shape)
     cb, ab, bb = (np.broadcast_to(v, shp) for v in (c, av, bv))
     out = np.empty(shp, dtype=object)
+
+    def pick(c, x, y):
+        if isinstance(c, E):
+            return x if x.same(y) else E("ite", c, x, y)
+        return x if bool(c) else y
     for idx in np.ndindex(shp):
-        out[idx] = ab[idx] if bool(cb[idx]) else bb[idx]
+        out[idx] = pick(cb[idx], ab[idx], bb[idx])
     if out.ndim == 0:
-        out[()] = ab[()] if bool(cb[()]) else bb[()]
+        out[()] = pick(cb[()], ab[()], bb[()])
     ref = a if isinstance(a, Tensor) else b
     return ref._new(out) if isinstance(ref, Tensor) else Tensor(out)
 
@@ -1056,10 +1089,16 @@ def where(cond, a, b):
 def clamp(x, min=None, max=None):
     def f(v):
         if min is not None:
-            if v._cmp(min, "lt"):
+            c = v._cmp(min, "lt")
+            if isinstance(c, E):
+                v = E("ite", c, E.const(min), v)
+            elif c:
                 return E.const(min)
         if max is not None:
-            if v._cmp(max, "gt"):
+            c = v._cmp(max, "gt")
+            if isinstance(c, E):
+                v = E("ite", c, E.const(max), v)
+            elif c:
                 return E.const(max)
         return v
     return x._new(_un(f)(x.a))
@@ -1137,6 +1176,7 @@ def inverse(x):
     return x._new(out)
 
 
+SYMBOLIC_COND = False     # set by a translator unit: undecidable comparisons become 'cmp' nodes, where() builds 'ite' nodes
 GENERIC_DISTINCT = False  # set by a translator unit: syntactically different symbols are "not close"
 ASSUME_ALLCLOSE = False   # set by a translator unit: symbolic allclose() calls succeed and are LOGGED as obligations
 ALLCLOSE_LOG = []         # [(lhs ndarray, rhs ndarray)] -- the unit must emit them to be proved in Coq
@@ -1178,6 +1218,17 @@ def mul(a, b): return a * b
 def add(a, b): return a + b
 def sub(a, b): return a - b
 def div(a, b): return a / b
+
+
+class _FInfo:
+    def __init__(self, dt):
+        import numpy as _np
+        fi = _np.finfo({"float16": _np.float16, "float32": _np.float32, "float64": _np.float64}.get(dt.name, _np.float32))
+        self.tiny, self.eps, self.max, self.min = builtins_float(fi.tiny), builtins_float(fi.eps), builtins_float(fi.max), builtins_float(fi.min)
+
+
+def finfo(dt=None):
+    return _FInfo(dt or float32)
 
 
 class no_grad:  # noqa: N801
